@@ -52,6 +52,7 @@ class extract_visitor(NodeVisitor):
         # type: (ast.AST, Flow) -> Flow
         self.top = flow.scope.top
         self.flow = flow
+        self.loops = []  # type: list[tuple[t.Any, list[Flow], list[Flow]]]
         self.generic_visit(tree)
         self.top.resolve_nonlocals()
         return flow
@@ -145,12 +146,12 @@ class extract_visitor(NodeVisitor):
         # the targets are bound from left to right: `for i, a[i] in ...` reads the new i
         self.bind_target(body_start, node.target, None, node.iter)
         self.visit_in_flow(node.target, body_start)
-        body = self.visit_in_flow(node.body, body_start)
+        body, breaks = self.visit_loop_body(node.body, body_start)
         body_start.loop(body)
 
         orelse = self.visit_in_flow(node.orelse, self.make_flow('for-else', [cur, body]))
 
-        self.flow = self.make_flow('join', [orelse])
+        self.flow = self.make_flow('join', [orelse] + breaks)
         self.flow.scope.flow = self.flow
 
 
@@ -165,14 +166,37 @@ class extract_visitor(NodeVisitor):
         test = self.visit_in_flow(node.test, test_start)
 
         body_start = self.make_flow('while', [test])
-        body = self.visit_in_flow(node.body, body_start)
+        body, breaks = self.visit_loop_body(node.body, body_start)
         test_start.loop(body)
 
         orelse = self.visit_in_flow(node.orelse,
                                     self.make_flow('while-else', [test]))
 
-        self.flow = self.make_flow('join', [orelse])
+        self.flow = self.make_flow('join', [orelse] + breaks)
         self.flow.scope.flow = self.flow
+
+    def visit_loop_body(self, nodes, flow):
+        # type: (list[t.Any], Flow) -> tuple[Flow, list[Flow]]
+        """Returns the flow going round the loop again (the end of the body
+        joined with its ``continue`` statements) and the flows leaving it at a
+        ``break``, which skip the else clause."""
+        self.loops.append((flow.scope, [], []))
+        body = self.visit_in_flow(nodes, flow)
+        _, breaks, continues = self.loops.pop()
+        if continues:
+            body = self.make_flow('continue-join', [body] + continues)
+        return body, breaks
+
+    def visit_Break(self, node):
+        # type: (ast.Break) -> None
+        # ast.parse accepts ``break`` outside a loop and in a class body inside one
+        if self.loops and self.loops[-1][0] is self.flow.scope:
+            self.loops[-1][1].append(self.flow)
+
+    def visit_Continue(self, node):
+        # type: (ast.Continue) -> None
+        if self.loops and self.loops[-1][0] is self.flow.scope:
+            self.loops[-1][2].append(self.flow)
 
     def visit_Import(self, node):
         # type: (ast.Import) -> None
